@@ -1,9 +1,18 @@
-"""C16 — Douglas-Peucker / Visvalingam simplification (tracklib/algo/simplification.py, util/geometry.py)."""
-import itertools, math
+"""C16 — Douglas-Peucker / Visvalingam simplification (tracklib/algo/simplification.py, util/geometry.py).
+
+Case kinds: `dp` / `vw` (list-level model: kept indices), `trk` (Track-level model: the Track object returned by
+douglas_peucker / visvalingam / simplify in its various call forms, and the input track's snapshot), `mode` (the dispatcher),
+`dist` / `area` (point-wise geometry), flag `wild` (coordinates outside any ENU frame: correspondence only).
+Optional fields of a `trk` case: `nodata` (the track's `no_data_value` attribute; fixes whose coordinates equal it are the readers'
+placeholders), `coords` (`ENU` default, `GEO`, `ECEF`: the class of the positions), `src` (`obj` default: built with Obs/Track;
+`csv`: written to a file and read back with TrackReader.readFromFile), via `network` (Network.simplify on an edge geometry)."""
+import itertools, math, os, tempfile, datetime, shutil
 from fractions import Fraction
 from engine import Prop, fbits, bitsf, close, ratstr, parse_rat
 
-SLACK = 1e-9          # the oracle accepts distance <= eps * (1 + SLACK): float rounding of the code's own distances
+SLACK = 1e-9          # the oracle accepts distance <= eps * (1 + SLACK) + ABS_SLACK * (largest |coordinate|): float rounding of the
+ABS_SLACK = 1e-13     # code's own distances -- relative to eps, and absolute (differences of coordinates of magnitude M carry an error ~1e-16 M,
+                      # which dominates when eps itself is of that order: e.g. (95.68,61.18),(11.58,84.09),(-72.52000000000001,107.0), eps = 3.55e-15)
 TOLS = [1e-3, 1e-2, 0.1, 0.25, 0.5, 0.7, 0.75, 1, 1.0, 1.25, 1.5, 2, 2.5, 3, 5, 10.0, 100, 1e3]
 
 
@@ -30,6 +39,16 @@ def polyline_d2(p, V):
     return min(seg_d2(p, V[k], V[k + 1]) for k in range(len(V) - 1))
 
 
+def seg_d2_float(p, a, b):
+    """float version of seg_d2: ONLY a pre-filter for the exact test (see polyline_far)"""
+    dx, dy = b[0] - a[0], b[1] - a[1]
+    l2 = dx * dx + dy * dy
+    if l2 == 0:
+        return (p[0] - a[0]) ** 2 + (p[1] - a[1]) ** 2
+    t = max(0.0, min(1.0, ((p[0] - a[0]) * dx + (p[1] - a[1]) * dy) / l2))
+    return (p[0] - a[0] - t * dx) ** 2 + (p[1] - a[1] - t * dy) ** 2
+
+
 def mirror_dist(x0, y0, x1, y1, x2, y2):
     """float distance with the same formula as the code; used ONLY to generate boundary tolerances"""
     l = math.sqrt((x2 - x1) ** 2 + (y2 - y1) ** 2)
@@ -38,6 +57,78 @@ def mirror_dist(x0, y0, x1, y1, x2, y2):
     t = ((x0 - x1) * (x2 - x1) + (y0 - y1) * (y2 - y1)) / l / l
     t = min(1.0, max(0.0, t))
     return math.sqrt((x0 - x1 - t * (x2 - x1)) ** 2 + (y0 - y1 - t * (y2 - y1)) ** 2)
+
+
+def near(a, b, abs_):
+    """|a - b| <= 1e-9 x the larger magnitude + abs_ (engine.close has a floor of 1e-9, too coarse for distances of 1e-5)"""
+    a, b = float(a), float(b)
+    if a != a or b != b:
+        return a != a and b != b
+    if math.isinf(a) or math.isinf(b):
+        return a == b
+    return abs(a - b) <= 1e-9 * max(abs(a), abs(b)) + abs_
+
+
+def dist_slack(p):
+    """absolute slack for a distance: the projected point is rounded at the magnitude M of the coordinates (~1e-16 M); 1e-9 at most, as before"""
+    return min(1e-9, 1e-12 * max(1.0, max(abs(v) for v in p)))
+
+
+def area_slack(p):
+    """absolute slack for a triangle area: a coordinate difference carries ~1e-16 M and is multiplied by a difference of at most D; 1e-9 at most, as before"""
+    m = max(1.0, max(abs(v) for v in p))
+    d = max(abs(a - b) for a in p for b in p)
+    return min(1e-9, 1e-14 * m * d)
+
+
+def fv(v):
+    """case value -> float/int: non-finite numbers are stored as strings in cases (JSON)"""
+    return float(v) if isinstance(v, str) else v
+
+
+def same_num(a, b):
+    """equality of two feature values / coordinates, NaN == NaN"""
+    if isinstance(a, float) and a != a:
+        return isinstance(b, float) and b != b
+    return a == b
+
+
+def same_rows(a, b):
+    return len(a) == len(b) and all(len(r) == len(q) and all(same_num(x, y) for x, y in zip(r, q)) for r, q in zip(a, b))
+
+
+def finite_case(case):
+    return all(math.isfinite(fv(v)) for v in case["xs"] + case["ys"])
+
+
+SMALL_UNITS = [1e-6, 1e-5, 2e-5, 5e-5, 1e-4, 2.5e-4, 1e-3]      # small-scale tracks: kilometres, degrees, normalised 0..1 frames
+SMALL_ORIGINS = [(0.0, 0.0), (0.0, 0.0), (0.5, 0.5), (2.35, 48.85), (-0.25, 0.125), (1.0, 0.0)]
+NODATA_VALUES = [-999999, -999999, -999999, -9999, -1, 0, 1]
+OTHER_EDGE = {"xs": [0, 3, 6, 2, 0], "ys": [0, 4, 0, -1, 0], "uid": 1, "tid": 2, "base": None, "names": ["q"], "rows": [[1], [2], [3], [4], [5]]}
+TIME_FMT = "4Y-2M-2D 2h:2m:2s"
+
+
+def fmt_time(t):
+    return (datetime.datetime(1970, 1, 1) + datetime.timedelta(seconds=t)).strftime("%Y-%m-%d %H:%M:%S")
+
+
+def num_repr(v):
+    """a number of a case as a CSV field that float() reads back exactly"""
+    v = fv(v)
+    return repr(float(v)) if isinstance(v, float) else str(v)
+
+
+TINY_TOLS = [5e-324, 1e-320, 1e-300, 1e-200, 1.5e-162, 1e-100, 1e-30]
+HUGE_TOLS = [1e154, 1.3407807929942597e154, 1.4e154, 1e200, 1e308, 1.7976931348623157e308]   # eps*eps is infinite from 1.3407807929942597e154 on
+
+
+FINDING_AIRE = "vw-user-feature-named-aire"
+FINDING_ORPHAN = "vw-feature-values-without-dict-entry"
+ERRMAP = {"err:AnalyticalFeatureError": "err:AnalyticalFeatureError", "err:IndexError": "err:index",
+          "err:NameError": "err:NameError", "err:RecursionError": "err:recursion", "err:KeyError": "err:key"}
+ALGO_OF_MODE = {"TV.Simplify.Algo.douglasPeucker": "douglas_peucker", "TV.Simplify.Algo.visvalingam": "visvalingam",
+                "TV.Simplify.Algo.squaring": "squaring", "TV.Simplify.Algo.optimal": "optimalSimplification",
+                "TV.Simplify.Algo.nameError": "err:NameError"}
 
 
 def collinear_run(xs, ys):
@@ -60,31 +151,95 @@ class P(Prop):
         (M, "TV.C16.dist_sq_eq", "T4 (executable form): distance_to_segment^2 equals the sqrt-free closed form distSegSq that the driver evaluates exactly on rationals against the harness' oracle"),
         (M, "TV.C16.dp_tolerance", "T5: every input fix is within eps (true point-segment distance, squared form) of a segment between two consecutive vertices of the OUTPUT polyline"),
         (M, "TV.C16.dp_correct", "T1+T2+T3+T5 in one statement: for every track of >= 2 fixes and eps > 0 a result exists, is a sublist keeping both ends, and is within tolerance"),
-        (M, "TV.C16.vw_sublist_ends", "T6: Visvalingam (areas below ARGMIN's 1e300 sentinel, any tolerance, any scalar type) returns a sublist keeping the first and last observation and its loop stops by itself within len(track) passes"),
+        (M, "TV.C16.vw_sublist_ends", "T6: Visvalingam (areas below ARGMIN's initial minimum, +inf since 68863c7: finite areas, any tolerance, any scalar type) returns a sublist keeping the first and last observation and its loop stops by itself within len(track) passes"),
         (M, "TV.C16.dp_any_tiebreak", "T7: whichever of several equally far fixes is taken as split point (the runs the correspondence check accepts), the result is a sublist keeping both ends; any scalar type"),
         (M, "TV.C16.dp_any_tiebreak_tolerance", "T7: every such run is within tolerance, and the code's own run (first farthest fix) is one of them"),
         (M, "TV.C16.single_fix", "a one-fix track is returned unchanged by both algorithms"),
+        (M, "TV.C16.dp_track_points", "T8: the positions of the Track returned by douglas_peucker(track, eps) are those of the list-level model douglasPeucker (and it recurses for ever exactly when that model does): T1-T5, T7 are about the Track that simplify(track, eps, MODE_SIMPLIFY_DOUGLAS_PEUCKER) returns; any scalar type"),
+        (M, "TV.C16.dp_track_obs", "T8: Douglas-Peucker returns the input's OBSERVATIONS (position, timestamp tag and feature row) as a sub-sequence with both ends; the result's feature dict is empty (names not transmitted), its uid/tid/base are the input's or Track()'s defaults 0/0/None (always the defaults for a track of <= 2 fixes)"),
+        (M, "TV.C16.dp_track_correct", "the statement of C16 for Douglas-Peucker on the Track object in one piece (ordered field, exact sqrt): a result exists, its observations (feature rows included) are a sub-sequence with both ends, every input fix is within eps of the returned polyline"),
+        (M, "TV.C16.vw_track", "T9: Visvalingam on a Track with a well-formed feature table without '@aire', any tolerance: the call succeeds, the positions are the list-level model's, the observations returned keep their feature rows, the feature dict and uid/tid/base are the input's: the temporary '@aire' column (created last, read by ARGMIN, updated, removed) leaves no trace; the input is not written (deep copy; the model is a function)"),
+        (M, "TV.C16.vw_track_ends", "T9: with T6's hypothesis the first and last observation (feature rows included) of the Track are kept"),
+        (M, "TV.C16.vw_removeObs_is_C04", "composition with C04: output.removeObs(id) (TV.Seq.removeObs, the model of removeObsList([id]) used by the Track-level loop) is the eraseIdx of the list-level loop; the + of Douglas-Peucker uses C04's sameNames rule as it is"),
+        (M, "TV.C16.simplify_dispatch", "simplify(track, tol, 1) is douglas_peucker, mode 2 is visvalingam, a mode outside 1..8 raises (NameError); modes 3..8 call other functions, outside the statement"),
+        (M, "TV.C16.vw_sentinel_first_pass", "T6' (round 1's open statement, now proved): when no interior fix has an initial area below ARGMIN's initial minimum (+inf since 68863c7: the areas are inf or NaN), ARGMIN answers 0, NaN > eps is False, and the first pass removes the FIRST observation; any scalar type"),
+        (M, "TV.C16.vw_all_below", "T11: when no triangle of the track has an area > eps*eps (in particular eps*eps = +inf: every tolerance from 1.34e154 up to the largest double, since b704eae) Visvalingam returns exactly the first and the last observation; under T6's hypothesis, any scalar type"),
+        (M, "TV.C16.vw_any", "T12 (no hypothesis on the areas: infinite, NaN, mixed columns, every pass; any scalar type, the Float model included): Visvalingam's result is a sub-sequence of the input observations, the LAST observation is kept, a track of >= 2 observations keeps >= 2, and the loop stops by itself within len(track) passes"),
+        (M, "TV.C16.vw_track_any", "T12 on the Track object (well-formed feature table without '@aire', non-empty track, any areas): the call succeeds, the observations returned (feature rows included) are a sub-sequence, the last observation is kept, >= 2 observations of >= 2"),
+        (M, "TV.C16.simplify_nodata", "simplify() never reads track.no_data_value (set by the readers): the observations returned for a track carrying the attribute are those returned without it -- no placeholder fix is left out --, errors included; the result's own attribute is None after Douglas-Peucker (a new Track) and the input's after Visvalingam (the copy)"),
+        (M, "TV.C16.simplify_nodata_dp_correct", "the statement of C16 for Douglas-Peucker through simplify() on a reader-made track (ordered field, exact sqrt): whatever no_data_value and wherever the placeholder fixes (first and last included), a result exists, is a sub-sequence of ALL input observations with both ends, and every input observation is within eps of the returned polyline"),
+        (M, "TV.C16.net_simplify_each", "Network.simplify(tolerance, mode) is simplify() on every edge geometry in the edges' order: when it succeeds the i-th geometry is what simplify returns for the i-th input geometry"),
+        (M, "TV.C16.dp_tolerance_any_arithmetic", "T5' (robust tolerance; ANY arithmetic -- rounded, saturating --, only `<` a linear order, as on doubles away from NaN): if a fix whose COMPUTED distance to a chord is < eps is accepted for that chord (W, any predicate: e.g. true distance <= eps + rounding slack) and a vertex is accepted for the segments it ends, then every input fix is accepted for a segment between consecutive vertices of the OUTPUT: the recursion, split and concatenation add no error; T5 is the exact instance (example)"),
+        (M, "TV.C16.dp_any_tiebreak_tolerance_any_arithmetic", "T5' for every run with another choice among equally far fixes (the runs the correspondence check accepts)"),
+        (M, "TV.C16.dp_total_zero_laws", "T3' (termination under rounded arithmetic): on a total order whose arithmetic satisfies six zero laws (x-x=0, 0*x=0, 0+0=0, 0/x=0, x+0=x, sqrt 0=0: true of IEEE doubles on finite values; example: integers with truncating division and integer sqrt) distance_to_segment(A; A, B) computes 0 in either branch of `l == 0`, so douglas_peucker returns on every track for every eps > 0"),
+        (M, "TV.C16.dp_correct_any_arithmetic", "C16 for Douglas-Peucker under any arithmetic on a total order: given distance_to_segment(A; A, B) never > 0 (checked bit-exactly by the `dist` stream) the call returns, the result is a sub-sequence with both ends, every input fix is accepted (T5')"),
+        (M, "TV.C16.vw_threshold", "T10 (threshold semantics; ANY arithmetic on a linear order since this pass -- the areas are the COMPUTED ones, so it is a statement about the float run away from NaN): under T6's hypothesis every interior fix of Visvalingam's result spans with its two neighbours in the result a triangle of area > eps^2 (the '@aire' column stays consistent with the current neighbours; ARGMIN designates a smallest entry)"),
     ]
     partial = []
     open_statements = [
-        "IEEE rounding: T3 (field form), T4 and T5 are over a linearly ordered field with an exact sqrt; on floats the tolerance is sampled by the transfer "
-        "check with slack 1e-9 (T1, T2, T6 and the scalar-independent T3 do apply to the Float model as they assume nothing about the scalar)",
-        "Visvalingam with a triangle area >= 1e300 or NaN (coordinates ~1e150, not ENU tracks): ARGMIN falls back to index 0 and the first fix is removed; excluded by T6's hypothesis",
+        "IEEE rounding: T3 (field form), T4 and T5 are over a linearly ordered field with an exact sqrt. T5' (dp_tolerance_any_arithmetic) reduces the tolerance on floats to ONE "
+        "pointwise statement about distance_to_segment -- `computed distance < eps  =>  true distance <= eps(1+1e-9) + 1e-13 M` -- which is not proved (an error analysis of the "
+        "formula in IEEE arithmetic) but sampled: by the `dist` stream (|computed - exact| <= 1e-9 relative + 1e-12 M) and by the transfer check on whole tracks with that slack "
+        "(T1, T2, T6, T12 and the scalar-independent T3 do apply to the Float model as they assume nothing about the scalar; T5', T10 assume only a total order)",
+        "Visvalingam when areas are infinite or NaN, i.e. not below ARGMIN's initial minimum +inf (coordinates ~1e154 and more, not ENU tracks): T12 (vw_any) now proves, "
+        "for every column and every pass, sub-sequence, last observation kept, >= 2 kept and termination; T6' proves that the first pass removes the FIRST fix when no "
+        "area is below the sentinel. Still open: an input-level characterisation of when the first observation survives a MIXED column (some areas finite, some not) -- "
+        "compared with the model only (stream `wild`)",
+        "T10 (vw_threshold) now holds for any arithmetic on a linear order, i.e. for the COMPUTED areas and the computed eps*eps; what it cannot say is how a computed "
+        "area relates to the exact one: an exact area within an ulp of eps^2 may fall on either side (model and code agree bit for bit there: correspondence)",
     ]
     modelled = ("util/geometry.py distance_to_segment (l == 0 branch, normalised scalar product, clamp to the segment's box), "
                 "triangle_area, aire_visval; algo/simplification.py douglas_peucker (n <= 2 base case, first farthest fix by strict >, "
-                "dmax < eps, split L[0:imax] / L[imax:n], recursion, concatenation) and visvalingam (eps **= 2, '@aire' column with NaN at "
-                "both ends, Operator.ARGMIN with the 1e300 sentinel, break on area > eps, removal, two neighbour updates); simplify() dispatch")
-    trusted = ["`eps **= 2` is modelled as eps*eps: the generators only emit tolerances with tol**2 == tol*tol in Python",
-               "Track.copy (deepcopy), Track.__add__, removeObs and the feature table are trusted to keep observations intact "
-               "(the oracle checks tags and positions of the output observations)",
-               "visvalingam on an empty track (Python raises AnalyticalFeatureError) is outside the model"]
-    rule = ("tracks of 1..9 fixes on integer lattices of side 2..6 (collinear runs, consecutive duplicates, revisited positions, closed loops "
+                "dmax < eps, split L[0:imax] / L[imax:n], recursion, concatenation) and visvalingam (eps = eps * eps -- b704eae; `eps **= 2` before --, '@aire' column with NaN at "
+                "both ends, Operator.ARGMIN with its initial minimum float('inf') (68863c7; 1e300 before), break on area > eps, removal, two neighbour updates). "
+                "On the Track object (Model/SimplifyTrack.lean): simplify(track, tolerance, mode, verbose) dispatch for every mode "
+                "(1, 2 modelled; 3 squaring and 4..8 optimalSimplification named, not modelled; others NameError); douglas_peucker's "
+                "Track(L) / Track([L[0], L[n-1]], uid, tid, base) / Track(L[0:imax], ...) + Track(L[imax:n], ...) with Track.__add__'s "
+                "rule for uid/tid/base and the feature dict (C04's sameNames); visvalingam's track.copy(), addAnalyticalFeature(aire_visval, '@aire') "
+                "(createAnalyticalFeature when new: column len(dico), 0.0; an empty track raises), setObsAnalyticalFeature('@aire', 0, nan), "
+                "the loop on that column of the feature rows (getObsAnalyticalFeature, C04's removeObs), removeAnalyticalFeature('@aire') with its index shift. "
+                "Attributes and entry points (Model/SimplifyTrack.lean, end): the Track attribute no_data_value that TrackReader.readFromFile sets (simplifyN: never read by "
+                "simplify/douglas_peucker/visvalingam -- removeNoDataValues is not on the path --, None on a Douglas-Peucker result through Track.__init__, the input's on "
+                "Visvalingam's copy); core/network.py Network.simplify (netSimplify: simplify on every edge geometry in insertion order, first exception ends the call). "
+                "The positions' class (ENUCoords / GeoCoords / ECEFCoords) only matters through getX()/getY(), the first two stored components for all three (harness: the "
+                "class of the returned positions is the input's). The tolerant ENUCoords.__eq__ (1e-4 per axis) is NOT on the path: the model compares coordinates exactly")
+    trusted = [               "Track.copy is a deep copy (the model is functional: it cannot write its input; the harness compares a full snapshot of the input "
+               "track before and after every call: observations' identity, positions, times, feature rows, feature dict, uid/tid/base)",
+               "z coordinates and timestamps are not in the model (the algorithms never read them); the harness checks they travel unchanged",
+               "a track made by TrackReader.readFromFile is taken as the reader made it (what the reader does with blank / NA fields is C13's model, TV.TextIO): the harness "
+               "writes the file, reads it back, checks that the track is the one the case describes (placeholder fixes at no_data_value, no_data_value attribute, tid = file name, "
+               "features through read_all) and simplifies that object",
+               "one Obs object occurring twice in a track (track + track, addObs(track[0])) is outside the model, which is on values: Visvalingam stores its areas in the Obs "
+               "objects, so two positions then share one '@aire' value (findings/C16.json, class vw-shared-obs-object; not generated)",
+               "feature rows are as long as the feature dict says (C01's invariant)",
+               "CPython's recursion limit (1000 frames) is outside the model: douglas_peucker recurses once per split level, T3 proves the depth is at most len(track), "
+               "and a track of more than ~1000 fixes shaped so that every split peels one fix raises RecursionError (findings/C16.json, class dp-recursion-depth; "
+               "the harness generates tracks of at most 300 fixes)"]
+    rule = ("[list-level streams] tracks of 1..9 fixes on integer lattices of side 2..6 (collinear runs, consecutive duplicates, revisited positions, closed loops "
             "forced with stated probabilities), quarter-step dyadic and 2-decimal float tracks; tolerances 1e-3..1e3 (ints and floats), random "
-            "3-digit tolerances and tolerances equal to the float distance of a fix to the chord (the dmax == eps boundary); every fix carries its "
+            "3-digit tolerances over 1e-6..1e6, tolerances far above any extent up to the largest double (1e154..1.797e308: eps*eps is infinite in Visvalingam) and tolerances equal to the float distance of a fix to the chord (the dmax == eps boundary); every fix carries its "
             "index as timestamp (and optionally a feature) so kept *observations* are identified; both through simplify(track, tol, mode) and the "
             "functions directly; all 3-fix (quick) / 3- and 4-fix (thorough) tracks on the 3x3 lattice are enumerated. distance_to_segment and "
-            "triangle_area are also compared point-wise. non-trivial = at least 3 fixes (a fix can be dropped)")
+            "triangle_area are also compared point-wise. "
+            "[Track-object stream `trk`] the same tracks (and the empty track) plus tracks of 10..40 fixes with 2-decimal coordinates (noisy line, closed circle, "
+            "random walk with pauses, stop cluster with an excursion, zig-zag), as Track objects with uid/tid/base set or not, 0..3 named features (NaN values "
+            "included), optional z, timestamps equal to the index or unsorted / repeated / all equal (the observation is then identified by its `tag` feature); a few "
+            "tracks of 100..300 fixes; called directly, through simplify(track, tol, mode), simplify with keywords and verbose=False, simplify's default mode, "
+            "tracklib.simplify; optionally after 1-2 earlier simplification calls on the SAME track object or on another one (state left behind); compared with "
+            "the Track-level model: kept observations, positions, feature rows, feature dict and column indices, uid/tid/base; the input track's full snapshot must be "
+            "unchanged. The oracle additionally requires every returned observation to carry the feature values of the input observation and the input to be left "
+            "unmodified. All Track objects of 2 and 3 fixes on {0,1}^2 are enumerated. [stream `mode`] which function simplify() calls for modes -2..11. "
+            "[attributes, all on the `trk` stream] a quarter of the tracks carry no_data_value (-999999, -9999, -1, 0, 1 or a coordinate of the track), 70 % of those with 1-3 "
+            "placeholder fixes (x = y = z = the value) as first / last / interior fix; 12 % have GeoCoords or ECEFCoords positions (oracle: every clause but the planar tolerance); "
+            "12 % are written to a CSV file (NA for the placeholders, optional U column, features through read_all) and read back with TrackReader.readFromFile; entry point "
+            "Network.simplify on a network whose first or second edge has the track as geometry; observations carrying feature values without dict entry (Track(other.getObsList()), "
+            "i.e. a Douglas-Peucker result as input), Douglas-Peucker always, Visvalingam when the finding is listed. [small units, streams dp/vw/trk] lattices of unit 1e-6..1e-3 "
+            "around (0,0), (0.5,0.5), (2.35,48.85), ..., with or without a fix a unit away (differences below / around the 1e-4 of the tolerant ENUCoords.__eq__), long shapes scaled "
+            "by 1e-6..1e-3, tolerances = fractions / small multiples of the smallest coordinate difference and 1e-7..1e-3; 1 % of the tolerances are far below any extent "
+            "(5e-324..1e-30: eps*eps underflows to 0 in Visvalingam); 6 % of the `trk` calls pass the tolerance as numpy.float64. [stream `mode`] also mode given as float / bool. "
+            "[stream `wild`] coordinates outside any ENU frame (1e101..1e308, inf, NaN, denormals; squares overflow, areas reach ARGMIN's sentinel): the oracle's "
+            "domain is finite coordinates up to 1e100 (ENU metres), beyond it only model and code are compared. "
+            "non-trivial = at least 3 fixes (a fix can be dropped)")
 
     # ---------------------------------------------------------------- setup
     def setup(self):
@@ -96,23 +251,60 @@ class P(Prop):
         from tracklib.algo import simplification as S
         from tracklib.util import geometry as G
         self.Obs, self.ENU, self.T, self.Track, self.S, self.G = Obs, ENUCoords, ObsTime, Track, S, G
+        from tracklib.core.obs_coords import GeoCoords, ECEFCoords
+        from tracklib.io.track_reader import TrackReader
+        from tracklib.io.track_format import TrackFormat
+        from tracklib.core import network as NW
+        self.GEO, self.ECEF, self.Reader, self.Format, self.NW = GeoCoords, ECEFCoords, TrackReader, TrackFormat, NW
+        import numpy
+        self.np = numpy
+        self.tracklib = tracklib
+        self._listed = None
+
+    def listed(self, cls):
+        """is `cls` a listed finding of known_findings.json (read, never written)? Inputs of a finding's class are generated
+        only then: the engine excuses a failing case only when its class is listed (proposals: findings/C16.json)"""
+        if self._listed is None:
+            import json, os
+            try:
+                with open(os.path.join(os.path.dirname(os.path.dirname(os.path.dirname(os.path.abspath(__file__)))), "known_findings.json")) as fh:
+                    ents = json.load(fh).get("entries", [])
+                self._listed = {e.get("class") for e in ents if e.get("property") == "C16" and e.get("status") == "finding"}
+            except Exception:
+                self._listed = set()
+        return cls in self._listed
 
     # ---------------------------------------------------------------- generators
     def exhaustive_scopes(self, tier):
+        extra = ["every track of 3 fixes on the lattice {0, 3e-5, 6e-5}^2 (all differences below the 1e-4 of ENUCoords.__eq__) x tolerances "
+                 "{1.5e-5, 3e-5, 4.5e-5} x {Douglas-Peucker, Visvalingam} through simplify()",
+                 "simplify(track, tol, mode) for every mode in -2..11: which function the dispatcher calls",
+                 "every track of 2 and of 3 fixes on the lattice {0,1}^2 as a Track object (two features, uid/tid/base set) x tolerances {0.5, 1} x "
+                 "{Douglas-Peucker, Visvalingam}: positions, feature rows, feature dict, uid/tid/base of the result, input left untouched"]
         if tier == "thorough":
             return ["every track of 3 and of 4 fixes on the lattice {0,1,2}^2 x tolerances {0.5, 1, 1.5} x {Douglas-Peucker, Visvalingam}",
-                    "distance_to_segment for every point/segment on the lattice {0,1,2}^2 (9^3 triples, degenerate segments included)"]
+                    "distance_to_segment for every point/segment on the lattice {0,1,2}^2 (9^3 triples, degenerate segments included)"] + extra
         return ["every track of 3 fixes on the lattice {0,1,2}^2 x tolerances {0.5, 1, 1.5} x {Douglas-Peucker, Visvalingam}",
-                "distance_to_segment for every point/segment on the lattice {0,1,2}^2 (9^3 triples, degenerate segments included)"]
+                "distance_to_segment for every point/segment on the lattice {0,1,2}^2 (9^3 triples, degenerate segments included)"] + extra
 
     def rand_track(self, rng):
-        style = rng.choice(["lattice"] * 8 + ["quarter", "float"])
+        style = rng.choice(["lattice"] * 8 + ["quarter", "float"] + ["small"] * 2)
         n = rng.choice([1, 2, 3, 3, 4, 4, 5, 5, 6, 6, 7, 8, 9])
         side = rng.choice([2, 2, 3, 3, 4, 5, 6])
         if style == "lattice":
             pt = lambda: (rng.randrange(side), rng.randrange(side))
         elif style == "quarter":
             pt = lambda: (rng.randrange(4 * side) / 4.0, rng.randrange(4 * side) / 4.0)
+        elif style == "small":
+            # coordinates whose differences are 1e-6 .. 1e-3 (kilometres, degrees, normalised frames): below / around the 1e-4 of
+            # the tolerant ENUCoords.__eq__; lattice of unit h around an origin, sometimes with a far fix (unit-square diagonal)
+            h = rng.choice(SMALL_UNITS)
+            ox, oy = rng.choice(SMALL_ORIGINS)
+            far = rng.random() < 0.3
+            def pt():
+                if far and rng.random() < 0.25:
+                    return (ox + rng.choice([0.25, 0.5, 1.0]), oy + rng.choice([0.0, 0.25, 1.0]))
+                return (ox + rng.randrange(side) * h, oy + rng.randrange(side) * h)
         else:
             pt = lambda: (round(rng.uniform(-100, 100), 2), round(rng.uniform(-100, 100), 2))
         pts = [pt()]
@@ -132,10 +324,17 @@ class P(Prop):
             pts[-1] = pts[0]
         return [p[0] for p in pts], [p[1] for p in pts], style
 
-    def rand_tol(self, rng, xs, ys):
+    def rand_tol(self, rng, xs, ys, style=None):
         r = rng.random()
         n = len(xs)
-        if r < 0.55:
+        if style == "small" and r < 0.7:
+            # tolerances at the scale of the track: fractions / small multiples of its smallest non-zero coordinate difference
+            ds = sorted(set(abs(a - b) for l in (xs, ys) for a in l for b in l if a != b))
+            u = ds[0] if ds else 1e-5
+            t = u * rng.choice([0.05, 0.1, 0.3, 0.5, 0.7, 0.75, 1, 1.25, 1.5, 2, 3])
+            if r < 0.15:
+                t = float("%.3g" % (10 ** rng.uniform(-7, -3)))
+        elif r < 0.55:
             t = rng.choice(TOLS)
         elif r < 0.75 and n >= 3:                          # boundary: the float distance of a fix to some chord of the track
             i = rng.randrange(n)
@@ -144,14 +343,210 @@ class P(Prop):
             t = mirror_dist(float(xs[i]), float(ys[i]), float(xs[a]), float(ys[a]), float(xs[b]), float(ys[b]))
             if not t > 0:
                 t = rng.choice(TOLS)
+        elif r < 0.96:
+            t = float("%.3g" % (10 ** rng.uniform(-6, 6)))
+        elif r < 0.97:
+            t = rng.choice(TINY_TOLS)                      # far below any extent, down to the smallest positive double: eps*eps = 0 in Visvalingam
         else:
-            t = float("%.3g" % (10 ** rng.uniform(-3, 3)))
-        if isinstance(t, float) and t ** 2 != t * t:       # keep `eps **= 2` == eps*eps (see trusted)
-            t = rng.choice(TOLS)
+            t = rng.choice(HUGE_TOLS)                      # far above any extent, up to the largest double: eps*eps = inf in Visvalingam
         return t
+
+    # ---- Track-object stream
+    def long_track(self, rng):
+        """10..40 fixes with 2-decimal float coordinates: noisy line, closed circle, random walk, stop cluster + excursion, zig-zag"""
+        n = rng.randrange(10, 41) if rng.random() < 0.97 else rng.randrange(100, 301)
+        shape = rng.choice(["line", "circle", "walk", "stop", "zigzag"])
+        r2 = lambda v: round(v, 2)
+        pts = []
+        if shape == "line":
+            amp = rng.choice([0.0, 0.05, 0.5, 3.0])
+            for i in range(n):
+                pts.append((r2(i * 2.5), r2(i * 1.25 + rng.uniform(-amp, amp))))
+        elif shape == "circle":
+            R = rng.choice([1.0, 10.0, 50.0])
+            for i in range(n):
+                a = 2 * math.pi * i / (n - 1)
+                pts.append((r2(R * math.cos(a)), r2(R * math.sin(a))))
+            pts[-1] = pts[0]
+        elif shape == "walk":
+            x = y = 0.0
+            for i in range(n):
+                pts.append((r2(x), r2(y)))
+                if rng.random() < 0.2:
+                    continue                                  # stay: consecutive duplicate
+                x += rng.uniform(-5, 5); y += rng.uniform(-5, 5)
+        elif shape == "stop":
+            c = rng.choice([0.05, 0.3, 1.0])
+            for i in range(n):
+                pts.append((r2(rng.uniform(-c, c)), r2(rng.uniform(-c, c))))
+            if rng.random() < 0.5:
+                pts[rng.randrange(1, n - 1)] = (r2(rng.uniform(5, 20)), r2(rng.uniform(-20, 20)))
+        else:
+            h = rng.choice([0.1, 1.0, 4.0])
+            for i in range(n):
+                pts.append((float(i), h if i % 2 else 0.0))
+        if rng.random() < 0.15:
+            pts[-1] = pts[0]
+        if rng.random() < 0.15:
+            # the same shape in small units (a track in kilometres / degrees / a normalised frame), around an origin
+            sc = rng.choice([1e-6, 1e-5, 1e-4, 1e-3])
+            ox, oy = rng.choice(SMALL_ORIGINS)
+            pts = [(ox + p[0] * sc, oy + p[1] * sc) for p in pts]
+            return [p[0] for p in pts], [p[1] for p in pts], "long-small-" + shape, sc
+        return [p[0] for p in pts], [p[1] for p in pts], "long-" + shape, 1
+
+    def rand_table(self, rng, n):
+        """feature names and one row per fix; the first feature (when any) is the fix's index"""
+        if n == 0:
+            return [], []
+        names = rng.choice([[], [], ["tag"], ["tag", "w"], ["tag", "w"], ["a", "b", "c"], ["speed"]])
+        rows = []
+        for i in range(n):
+            r = []
+            for j, _ in enumerate(names):
+                if j == 0:
+                    r.append(i)
+                else:
+                    r.append(rng.choice([0, 1, 2.5, -3, 7, 0.125, "nan", i * 10]))
+            rows.append(r)
+        return list(names), rows
+
+    def rand_via(self, rng, algo):
+        v = ["direct", "direct", "simplify", "simplify", "simplify", "simplify_kw", "toplevel", "network"]
+        if algo == "dp":
+            v.append("simplify_default")
+        return rng.choice(v)
+
+    def rand_trk(self, rng, long=False):
+        if long:
+            xs, ys, style, sc = self.long_track(rng)
+            r = rng.random()
+            tol = rng.choice([0.01, 0.05, 0.1, 0.3, 0.5, 1, 1.5, 2.5, 5, 10.0, 25, 100]) * sc if r < 0.8 else self.rand_tol(rng, xs, ys)
+        else:
+            xs, ys, style = self.rand_track(rng)
+            if rng.random() < 0.03:
+                xs, ys = [], []
+            tol = self.rand_tol(rng, xs, ys, style)
+        n = len(xs)
+        algo = rng.choice(["dp", "vw"])
+        names, rows = self.rand_table(rng, n)
+        pre = []
+        if rng.random() < 0.3:
+            for _ in range(rng.choice([1, 1, 2])):
+                pre.append([rng.choice(["dp", "vw"]), rng.choice([0.01, 0.5, 1, 3, 1000.0]), rng.choice(["same", "same", "other"])])
+        c = {"kind": "trk", "algo": algo, "xs": xs, "ys": ys, "tol": tol, "uid": rng.choice([0, 1, 7, 12345]),
+             "tid": rng.choice([0, 3, 9, 777]), "base": rng.choice([None, None, 5, 42]), "names": names, "rows": rows,
+             "via": self.rand_via(rng, algo), "pre": pre, "style": style}
+        if rng.random() < 0.3:
+            c["zs"] = [rng.choice([0, 1, -2, 10.5, 100]) for _ in range(n)]
+        if names and names[0] == "tag" and rng.random() < 0.35:
+            # timestamps that are not the index: unsorted, repeated, or all equal -- the observation is then identified by its `tag` feature
+            r = rng.random()
+            if r < 0.4:
+                c["ts"] = [rng.randrange(0, max(2, n // 2 + 1)) * 10 for _ in range(n)]
+            elif r < 0.7:
+                c["ts"] = [1000 - 7 * i for i in range(n)]
+            elif r < 0.85:
+                c["ts"] = [500] * n
+            else:
+                c["ts"] = [rng.randrange(0, 100000) for _ in range(n)]
+        self.rand_attrs(rng, c)
+        if rng.random() < 0.06:
+            c["tol_form"] = "np64"                          # the tolerance arrives as a numpy.float64 (computed by the caller with numpy)
+        if names and c.get("src") != "csv" and rng.random() < 0.08 and (algo == "dp" or self.listed(FINDING_ORPHAN)):
+            # observations that carry feature values the track's dict does not name: Track(other.getObsList()), which is also what
+            # douglas_peucker itself returns (so: Visvalingam applied to a Douglas-Peucker result)
+            c["orphan"] = True
+            if algo == "vw":
+                c.pop("ts", None)                       # the first feature value does not survive (the finding): identify by timestamp
+        return c
+
+    def rand_attrs(self, rng, c):
+        """attributes of the Track that simplification must not be sensitive to: `no_data_value` (with or without placeholder fixes at
+        that value, first / last / interior), the class of the positions, a track made by the CSV reader, Network.simplify"""
+        n = len(c["xs"])
+        if c["via"] == "network":
+            c["net_pos"] = rng.choice([0, 0, 1])              # number of other edges simplified before this one
+        r = rng.random()
+        if r < 0.25:
+            nd = rng.choice(NODATA_VALUES)
+            if n and rng.random() < 0.15:
+                nd = rng.choice(c["xs"] + c["ys"])          # a legitimate coordinate of the track happens to be the no-data value
+                if isinstance(nd, str) or nd != nd:
+                    nd = -999999
+            c["nodata"] = nd
+            if n and rng.random() < 0.7:
+                zs = list(c.get("zs") or [0] * n)
+                where = set()
+                for _ in range(rng.choice([1, 1, 1, 2, 3])):
+                    where.add(rng.choice([0, n - 1, n - 1, rng.randrange(n)]))
+                for i in where:
+                    c["xs"][i] = c["ys"][i] = zs[i] = nd
+                c["zs"] = zs
+        if rng.random() < 0.12:
+            c["coords"] = rng.choice(["GEO", "ECEF"])
+        if n >= 1 and rng.random() < 0.12 and min(c.get("ts") or [0]) >= 0 and all(m != "@aire" for m in c["names"]):
+            nd = c.get("nodata", -999999)
+            ok = isinstance(nd, int) and not isinstance(nd, bool)
+            for i in range(n):                                # the reader turns a line whose int(E) or int(N) is the value into a placeholder
+                x, y = fv(c["xs"][i]), fv(c["ys"][i])
+                z = (c.get("zs") or [0] * n)[i]
+                if x == nd and y == nd and z == nd:
+                    continue
+                if int(x) == nd or int(y) == nd:
+                    ok = False
+            if ok:
+                c["src"] = "csv"
+                c["nodata"] = nd
+                c["uid"], c["base"] = 0, None
+        return c
+
+    def wild_case(self, rng):
+        """coordinates outside any ENU frame: huge (squares overflow, areas become infinite: not below ARGMIN's initial minimum +inf), infinite, NaN, denormal.
+        Outside the property's domain (spec says nothing): model and code are compared on them"""
+        n = rng.choice([2, 3, 3, 4, 5, 6])
+        xs = [rng.randrange(4) for _ in range(n)]
+        ys = [rng.randrange(4) for _ in range(n)]
+        W = [1e150, -1e150, 1e155, 2e155, 1e200, -1e200, 1e308, "inf", "-inf", "nan", 5e-324, 1e-200, 1e101]
+        for _ in range(rng.choice([1, 1, 2, 3])):
+            i = rng.randrange(n)
+            if rng.random() < 0.5:
+                xs[i] = rng.choice(W)
+            else:
+                ys[i] = rng.choice(W)
+        if rng.random() < 0.2:
+            xs[-1], ys[-1] = xs[0], ys[0]
+        return {"kind": rng.choice(["dp", "vw"]), "xs": xs, "ys": ys, "tol": rng.choice([0.5, 1, 2, 1e10, 1e100, 1e150]),
+                "via": "direct", "af": False, "wild": True}
 
     def cases(self, rng, tier):
         out = []
+        for m in range(-2, 12):
+            out.append({"kind": "mode", "mode": m})
+            out.append({"kind": "mode", "mode": m, "form": "float"})     # `mode == 1` is numeric equality: 1.0, True select like 1
+        out.append({"kind": "mode", "mode": 0, "form": "bool"})
+        out.append({"kind": "mode", "mode": 1, "form": "bool"})
+        lat2 = [(x, y) for x in range(2) for y in range(2)]
+        for n in (2, 3):
+            for pts in itertools.product(lat2, repeat=n):
+                for tol in (0.5, 1):
+                    for algo in ("dp", "vw"):
+                        out.append({"kind": "trk", "algo": algo, "xs": [q[0] for q in pts], "ys": [q[1] for q in pts], "tol": tol,
+                                    "uid": 7, "tid": 9, "base": 5, "names": ["tag", "w"], "rows": [[i, 2.5] for i in range(n)],
+                                    "via": "direct", "pre": [], "style": "lattice"})
+        for _ in range(8000 if tier == "quick" else 60000):
+            out.append(self.rand_trk(rng))
+        for _ in range(2500 if tier == "quick" else 15000):
+            out.append(self.rand_trk(rng, long=True))
+        for _ in range(1500 if tier == "quick" else 10000):
+            out.append(self.wild_case(rng))
+        if self.listed(FINDING_AIRE):
+            for _ in range(300):
+                c = self.rand_trk(rng)
+                if c["names"] and c["algo"] == "vw":
+                    c["names"][rng.randrange(len(c["names"]))] = "@aire"
+                    c.pop("ts", None)                       # observations identified by their timestamp (the index), not by column 0
+                    out.append(c)
         lat = [(x, y) for x in range(3) for y in range(3)]
         sizes = (3, 4) if tier == "thorough" else (3,)
         for n in sizes:
@@ -160,6 +555,12 @@ class P(Prop):
                 for tol in (0.5, 1, 1.5):
                     for algo in ("dp", "vw"):
                         out.append({"kind": algo, "xs": xs, "ys": ys, "tol": tol, "via": "direct", "af": False})
+        h = 3e-5                                             # the same lattice in small units: every difference is below ENUCoords' 1e-4
+        for pts in itertools.product(lat, repeat=3):
+            xs, ys = [p[0] * h for p in pts], [p[1] * h for p in pts]
+            for tol in (0.5 * h, h, 1.5 * h):
+                for algo in ("dp", "vw"):
+                    out.append({"kind": algo, "xs": xs, "ys": ys, "tol": tol, "via": "simplify", "af": False})
         for p in lat:
             for a in lat:
                 for b in lat:
@@ -167,12 +568,16 @@ class P(Prop):
         nrand = 20000 if tier == "quick" else 150000
         for _ in range(nrand):
             xs, ys, style = self.rand_track(rng)
-            tol = self.rand_tol(rng, xs, ys)
+            tol = self.rand_tol(rng, xs, ys, style)
             out.append({"kind": rng.choice(["dp", "dp", "vw"]), "xs": xs, "ys": ys, "tol": tol,
                         "via": rng.choice(["simplify", "direct"]), "af": rng.random() < 0.2})
         for _ in range(3000 if tier == "quick" else 30000):
             r = rng.random()
-            if r < 0.5:
+            if r < 0.15:                                     # small units around an origin (differences 1e-6 .. 1e-3)
+                h = rng.choice(SMALL_UNITS)
+                ox, oy = rng.choice(SMALL_ORIGINS)
+                v = [(ox if j % 2 == 0 else oy) + rng.randrange(-6, 7) * h for j in range(6)]
+            elif r < 0.5:
                 v = [rng.randrange(-4, 5) for _ in range(6)]
             elif r < 0.75:
                 v = [rng.randrange(-16, 17) / 4.0 for _ in range(6)]
@@ -188,21 +593,41 @@ class P(Prop):
         return out
 
     def describe(self, case):
-        t = {"kind": case["kind"]}
-        if case["kind"] in ("dp", "vw"):
+        k = case["kind"]
+        t = {"kind": k}
+        if k == "mode":
+            return t
+        if k in ("dp", "vw", "trk"):
+            if case.get("wild"):
+                return {"kind": k, "wild": True}
             xs, ys = case["xs"], case["ys"]
             n = len(xs)
-            t["n"] = n
+            t["n"] = n if n < 10 else "10+"
             t["via"] = case["via"]
             t["closed"] = n >= 2 and xs[0] == xs[-1] and ys[0] == ys[-1]
             t["consecutive_dup"] = any(xs[i] == xs[i + 1] and ys[i] == ys[i + 1] for i in range(n - 1))
             t["revisit"] = len(set(zip(xs, ys))) < n
             t["collinear_run"] = collinear_run(xs, ys)
             t["tol_decade"] = int(math.floor(math.log10(float(case["tol"])))) if case["tol"] > 0 else "<=0"
+            ds = [abs(fv(a) - fv(b)) for l in (xs, ys) for a, b in zip(l, l[1:]) if a != b]
+            t["small_steps"] = bool(ds) and min(ds) < 1e-3
+        if k == "trk":
+            t["nodata"] = "none" if case.get("nodata") is None else (
+                "placeholders" if any(x == case["nodata"] for x in case["xs"]) else "set")
+            t["coords"] = case.get("coords", "ENU")
+            t["src"] = case.get("src", "obj")
+            t["orphan_rows"] = bool(case.get("orphan"))
+            t["tol_form"] = case.get("tol_form") or "python"
+            t["algo"] = case["algo"]
+            t["features"] = len(case["names"])
+            t["pre_calls"] = len(case.get("pre", []))
+            t["timestamps"] = "index" if not case.get("ts") else ("repeated" if len(set(case["ts"])) < len(case["ts"]) else "unsorted")
         return t
 
     def nontrivial(self, case):
-        if case["kind"] in ("dp", "vw"):
+        if case["kind"] == "mode":
+            return True
+        if case["kind"] in ("dp", "vw", "trk"):
             return len(case["xs"]) >= 3
         p = case["p"]
         return (p[2], p[3]) != (p[4], p[5])
@@ -211,11 +636,131 @@ class P(Prop):
     def mk(self, case):
         obs = []
         for i, (x, y) in enumerate(zip(case["xs"], case["ys"])):
-            obs.append(self.Obs(self.ENU(x, y, 0), self.T.readUnixTime(i)))
+            obs.append(self.Obs(self.ENU(fv(x), fv(y), 0), self.T.readUnixTime(i)))
         tr = self.Track(obs)
         if case.get("af"):
             tr.createAnalyticalFeature("tag", [i for i in range(len(obs))])
         return tr
+
+    def mk_trk(self, case):
+        zs = case.get("zs") or [0] * len(case["xs"])
+        ts = case.get("ts") or list(range(len(case["xs"])))
+        if case.get("src") == "csv":
+            return self.mk_trk_csv(case, zs, ts)
+        C = {"ENU": self.ENU, "GEO": self.GEO, "ECEF": self.ECEF}[case.get("coords", "ENU")]
+        obs = [self.Obs(C(fv(x), fv(y), z), self.T.readUnixTime(t)) for x, y, z, t in zip(case["xs"], case["ys"], zs, ts)]
+        tr = self.Track(obs, case["uid"], case["tid"], case["base"])
+        if obs:
+            for j, name in enumerate(case["names"]):
+                tr.createAnalyticalFeature(name, [fv(r[j]) for r in case["rows"]])
+        if case.get("orphan"):
+            tr = self.Track(tr.getObsList(), case["uid"], case["tid"], case["base"])   # the observations keep their values, the dict is empty
+        if case.get("nodata") is not None:
+            tr.no_data_value = case["nodata"]
+        return tr
+
+    def mk_trk_csv(self, case, zs, ts):
+        """the track as TrackReader.readFromFile makes it from a CSV file: a line whose E and N fields are `NA` becomes a fix at
+        (no_data, no_data, no_data); track.no_data_value is the format's; tid is the file's base name; features through read_all"""
+        nd = case["nodata"]
+        names = case["names"]
+        has_u = bool(case.get("zs"))
+        head = ["T", "E", "N"] + (["U"] if has_u else []) + list(names)
+        lines = [",".join(head)]
+        for i in range(len(case["xs"])):
+            x, y, z = case["xs"][i], case["ys"][i], zs[i]
+            ph = (x == nd and y == nd and z == nd)
+            f = [fmt_time(ts[i]), "NA" if ph else num_repr(x), "NA" if ph else num_repr(y)]
+            if has_u:
+                f.append("0" if ph else num_repr(z))
+            f += [num_repr(v) for v in (case["rows"][i] if names else [])]
+            lines.append(",".join(f))
+        d = tempfile.mkdtemp(prefix="c16_")
+        try:
+            path = os.path.join(d, "trk%d.csv" % case["tid"])
+            with open(path, "w") as fh:
+                fh.write("\n".join(lines) + "\n")
+            par = {"ext": "CSV", "id_T": 0, "id_E": 1, "id_N": 2, "header": 1, "separator": ",", "srid": case.get("coords", "ENU"),
+                   "time_fmt": TIME_FMT, "no_data_value": nd, "read_all": bool(names)}
+            if has_u:
+                par["id_U"] = 3
+            tr = self.Reader.readFromFile(path, self.Format(par))
+        finally:
+            shutil.rmtree(d, ignore_errors=True)
+        # the case describes the track the reader is expected to make (C13's business): anything else is not an input of this check
+        got = [[o.position.getX(), o.position.getY(), o.position.getZ(), o.timestamp.toAbsTime()] for o in tr.getObsList()]
+        want = [[fv(x), fv(y), z, t] for x, y, z, t in zip(case["xs"], case["ys"], zs, ts)]
+        if not same_rows(got, want) or tr.no_data_value != nd or tr.getListAnalyticalFeatures() != list(names):
+            raise RuntimeError("the CSV reader did not produce the track described by the case: %s" % (got,))
+        return tr
+
+    def snapshot(self, tr):
+        """everything observable of a Track: observations (identity, position, time, feature row), feature dict, uid/tid/base"""
+        pts = tr.getObsList()
+        return {"size": tr.size(), "ids": [id(o) for o in pts],
+                "xyz": [[o.position.getX(), o.position.getY(), o.position.getZ()] for o in pts],
+                "t": [o.timestamp.toAbsTime() for o in pts], "rows": [list(o.features) for o in pts],
+                "dico": dict(tr._Track__analyticalFeaturesDico), "uid": tr.uid, "tid": tr.tid, "base": tr.base,
+                "nodata": tr.no_data_value}
+
+    def snap_diff(self, a, b):
+        for k in ("size", "ids", "t", "dico", "uid", "tid", "base", "nodata"):
+            if a[k] != b[k]:
+                return "%s: %s -> %s" % (k, a[k], b[k])
+        if not same_rows(a["xyz"], b["xyz"]):
+            return "positions: %s -> %s" % (a["xyz"], b["xyz"])
+        if not same_rows(a["rows"], b["rows"]):
+            return "feature rows: %s -> %s" % (a["rows"], b["rows"])
+        return None
+
+    def norm_tid(self, case, tid):
+        """a track made by the reader has the file's base name `trk<tid>` (a string) as tid"""
+        if case.get("src") == "csv" and isinstance(tid, str) and tid == "trk%d" % case["tid"]:
+            return case["tid"]
+        return tid
+
+    def call(self, tr, algo, tol, via, net_pos=0):
+        S = self.S
+        mode = S.MODE_SIMPLIFY_DOUGLAS_PEUCKER if algo == "dp" else S.MODE_SIMPLIFY_VISVALINGAM
+        if via == "network":
+            # Network.simplify(tolerance, mode): every edge geometry is replaced by simplify(geometry, tolerance, mode)
+            NW = self.NW
+            net = NW.Network()
+            geoms = [self.mk_trk(OTHER_EDGE) for _ in range(net_pos)] + [tr]
+            for i, g in enumerate(geoms):
+                net.addEdge(NW.Edge(i, g), NW.Node(2 * i, self.ENU(i, 0, 0)), NW.Node(2 * i + 1, self.ENU(i, 1, 0)))
+            net.simplify(tol, mode)
+            return net.EDGES[net_pos].geom
+        if via == "simplify":
+            return S.simplify(tr, tol, mode)
+        if via == "simplify_kw":
+            return S.simplify(track=tr, tolerance=tol, mode=mode, verbose=False)
+        if via == "simplify_default":
+            return S.simplify(tr, tol)
+        if via == "toplevel":
+            return self.tracklib.simplify(tr, tol, mode, False)
+        return S.douglas_peucker(tr, tol) if algo == "dp" else S.visvalingam(tr, tol)
+
+    def impl_mode(self, case):
+        """which function does simplify(track, tol, mode) call? (the four candidates are replaced by recorders for the call)"""
+        S = self.S
+        names = ["douglas_peucker", "visvalingam", "squaring", "optimalSimplification"]
+        saved = {n: getattr(S, n) for n in names}
+        called = []
+        try:
+            for n in names:
+                setattr(S, n, (lambda nn: (lambda *a, **k: called.append(nn)))(n))
+            tr = self.Track([self.Obs(self.ENU(0, 0, 0), self.T.readUnixTime(0)), self.Obs(self.ENU(1, 1, 0), self.T.readUnixTime(1))])
+            try:
+                m = case["mode"]
+                m = float(m) if case.get("form") == "float" else (bool(m) if case.get("form") == "bool" else m)
+                S.simplify(tr, 1.0, m, False)
+            except NameError:
+                called.append("err:NameError")
+        finally:
+            for n in names:
+                setattr(S, n, saved[n])
+        return {"calls": called}
 
     def impl(self, case):
         k = case["kind"]
@@ -223,6 +768,10 @@ class P(Prop):
             return {"v": float(self.G.distance_to_segment(*case["p"]))}
         if k == "area":
             return {"v": float(self.G.triangle_area(*case["p"]))}
+        if k == "mode":
+            return self.impl_mode(case)
+        if k == "trk":
+            return self.impl_trk(case)
         tr = self.mk(case)
         if case["via"] == "simplify":
             mode = self.S.MODE_SIMPLIFY_DOUGLAS_PEUCKER if k == "dp" else self.S.MODE_SIMPLIFY_VISVALINGAM
@@ -241,6 +790,38 @@ class P(Prop):
             xy.append([o.position.getX(), o.position.getY()])
         return {"kept": kept, "xy": xy, "input_size_after": tr.size()}
 
+    def impl_trk(self, case):
+        tr = self.mk_trk(case)
+        before = self.snapshot(tr)
+        other = None
+        for a, t, which in case.get("pre", []):
+            if which == "same":
+                target = tr
+            else:
+                if other is None:
+                    other = self.mk_trk(OTHER_EDGE)
+                target = other
+            try:
+                self.call(target, a, t, "direct")
+            except Exception:
+                pass                                          # an earlier call that fails is the business of its own case
+        tol = self.np.float64(case["tol"]) if case.get("tol_form") == "np64" else case["tol"]
+        res = self.call(tr, case["algo"], tol, case["via"], case.get("net_pos", 0))
+        after = self.snapshot(tr)
+        out = self.snapshot(res)
+        inp_ids = set(before["ids"])
+        base = out["base"]
+        if case.get("ts"):                                    # observations are identified by their first feature (`tag` = index)
+            kept = [int(r[0]) if (r and isinstance(r[0], (int, float)) and r[0] == r[0] and float(r[0]).is_integer()) else -1 for r in out["rows"]]
+        else:
+            kept = [int(round(t)) for t in out["t"]]
+        return {"kept": kept, "t": out["t"], "xyz": out["xyz"], "rows": out["rows"],
+                "names": list(out["dico"].keys()), "cols": list(out["dico"].values()),
+                "uid": out["uid"], "tid": self.norm_tid(case, out["tid"]), "base": base if (base is None or isinstance(base, int)) else repr(base),
+                "nodata": out["nodata"], "classes": sorted(set(type(o.position).__name__ for o in res.getObsList())),
+                "input_changed": self.snap_diff(before, after),
+                "shares_obs": bool(out["ids"]) and all(i in inp_ids for i in out["ids"])}
+
     # ---------------------------------------------------------------- model
     def requests(self, case):
         k = case["kind"]
@@ -249,7 +830,31 @@ class P(Prop):
                     "C16.distq %s" % " ".join(ratstr(v) for v in case["p"])]
         if k == "area":
             return ["C16.area %s" % " ".join(fbits(v) for v in case["p"])]
-        fl = lambda l: ",".join(fbits(v) for v in l) if l else "_"
+        if k == "mode":
+            return ["C16.mode %d" % case["mode"]]
+        fl = lambda l: ",".join(fbits(fv(v)) for v in l) if l else "_"
+        if k == "trk":
+            algo = case["algo"]
+            rows = ";".join(fl(r) for r in case["rows"]) if (case["rows"] and case["names"]) else "_"
+            def geom(c, rows):
+                named = c["names"] and not c.get("orphan")
+                return "%s %s %d %d %s %s %s %s" % (
+                    fl(c["xs"]), fl(c["ys"]), c["uid"], c["tid"],
+                    "_" if c["base"] is None else str(c["base"]), ",".join(c["names"]) if named else "_",
+                    ",".join(str(j) for j in range(len(c["names"]))) if named else "_", rows)
+            nd = "_" if case.get("nodata") is None else fbits(case["nodata"])
+            head = "%d %s" % (1 if algo == "dp" else 2, fbits(case["tol"]))
+            if case["via"] == "network":                    # Network.simplify: the model of the loop over the edges (netSimplify)
+                k = case.get("net_pos", 0)
+                other = geom(OTHER_EDGE, ";".join(fl(r) for r in OTHER_EDGE["rows"])) + " _"
+                line = "C16.net %s %d %s" % (head, k + 1, " ".join([other] * k + [geom(case, rows) + " " + nd]))
+            elif case.get("nodata") is not None:            # the attribute no_data_value is part of the model's track (simplifyN)
+                line = "C16.trkn %s %s %s" % (head, geom(case, rows), nd)
+            else:
+                line = "C16.trk %s %s" % (head, geom(case, rows))
+            if algo == "dp" and len(case["xs"]) <= 9:      # the runs reachable with another choice among equally far fixes
+                return [line, "C16.dp %s %s %s" % (fbits(case["tol"]), fl(case["xs"]), fl(case["ys"]))]
+            return [line]
         return ["C16.%s %s %s %s" % (k, fbits(case["tol"]), fl(case["xs"]), fl(case["ys"]))]
 
     def decode(self, case, replies):
@@ -261,17 +866,73 @@ class P(Prop):
             return {"v": bitsf(r), "sq": replies[1]}
         if k == "area":
             return {"v": bitsf(r)}
+        if k == "mode":
+            return {"calls": [ALGO_OF_MODE[r]]}
+        if r == "unsupported":
+            raise ValueError("unsupported")
         if r.startswith("err:"):
-            return {"err": r}
+            return {"err": ERRMAP.get(r, r)}
+        if k == "trk" and case["via"] == "network":
+            r = r.split(" | ")[case.get("net_pos", 0)]      # the geometry of this case's edge
         parts = r.split(" ")
         idx = lambda s: [] if s == "_" else [int(t) for t in s.split(",")]
         kept = idx(parts[0])
-        out = {"kept": kept, "xy": [[case["xs"][i], case["ys"][i]] for i in kept], "input_size_after": len(case["xs"])}
+        if k == "trk":
+            zs = case.get("zs") or [0] * len(case["xs"])
+            rows = [[]] * len(kept) if parts[6] == "_" else [[] if t == "_" else [bitsf(v) for v in t.split(",")] for t in parts[6].split(";")]
+            out = {"kept": kept, "xyz": [[fv(case["xs"][i]), fv(case["ys"][i]), zs[i]] for i in kept], "rows": rows,
+                   "names": [] if parts[4] == "_" else parts[4].split(","), "cols": idx(parts[5]),
+                   "uid": int(parts[1]), "tid": int(parts[2]), "base": None if parts[3] == "_" else int(parts[3]),
+                   "nodata": None if (len(parts) < 8 or parts[7] == "_") else bitsf(parts[7])}
+            if len(replies) > 1 and not replies[1].startswith("err:") and replies[1] != "bad-request":
+                out["all"] = [idx(t) for t in replies[1].split(" ")[1].split(";")]
+            return out
+        out = {"kept": kept, "xy": [[fv(case["xs"][i]), fv(case["ys"][i])] for i in kept], "input_size_after": len(case["xs"])}
         if k == "dp":
             out["all"] = [idx(s) for s in parts[1].split(";")]
         return out
 
+    def compare_trk(self, case, impl_out, model_out):
+        if "err" in impl_out or "err" in model_out:
+            if impl_out.get("err") == model_out.get("err"):
+                return None
+            return "impl=%s model=%s" % (impl_out, model_out)
+        if impl_out["input_changed"]:
+            return "the input track was modified: %s" % impl_out["input_changed"]
+        if impl_out["kept"] == model_out["kept"]:
+            if not same_rows(impl_out["xyz"], model_out["xyz"]):
+                return "positions differ: impl=%s model=%s" % (impl_out["xyz"], model_out["xyz"])
+            if not same_rows(impl_out["rows"], model_out["rows"]):
+                return "feature rows differ: impl=%s model=%s" % (impl_out["rows"], model_out["rows"])
+            for f in ("names", "cols", "uid", "tid", "base", "nodata"):
+                if impl_out[f] != model_out[f]:
+                    return "%s of the result: impl=%r model=%r" % (f, impl_out[f], model_out[f])
+            return self.classes_ok(case, impl_out)
+        if case["algo"] == "dp" and impl_out["kept"] in model_out.get("all", []):
+            # another choice among equally far fixes (free in the property): uid/tid/base depend on the left-most piece, so only
+            # their range is checked (dp_track_obs); positions and rows are the oracle's business
+            if impl_out["names"] != []:
+                return "feature dict of a Douglas-Peucker result: impl=%r model=[]" % (impl_out["names"],)
+            if (impl_out["uid"], impl_out["tid"], impl_out["base"]) not in ((case["uid"], case["tid"], case["base"]), (0, 0, None)):
+                return "uid/tid/base of the result: %r" % ((impl_out["uid"], impl_out["tid"], impl_out["base"]),)
+            if impl_out["nodata"] is not None:
+                return "no_data_value of a Douglas-Peucker result: impl=%r model=None" % (impl_out["nodata"],)
+            return self.classes_ok(case, impl_out)
+        return "kept indices: impl=%s model=%s" % (impl_out["kept"], model_out["kept"])
+
+    def classes_ok(self, case, impl_out):
+        """the positions returned are the input's objects' class (ENUCoords / GeoCoords / ECEFCoords): nothing is converted"""
+        want = {"ENU": "ENUCoords", "GEO": "GeoCoords", "ECEF": "ECEFCoords"}[case.get("coords", "ENU")]
+        if impl_out["classes"] not in ([], [want]):
+            return "class of the returned positions: %s, the input's are %s" % (impl_out["classes"], want)
+        return None
+
     def compare(self, case, impl_out, model_out):
+        if case["kind"] == "trk":
+            return self.compare_trk(case, impl_out, model_out)
+        if case["kind"] == "mode":
+            return None if impl_out.get("calls") == model_out.get("calls") else "simplify(mode=%s) called %s, the model dispatches to %s" % (
+                case["mode"], impl_out.get("calls", impl_out), model_out.get("calls"))
         if "err" in impl_out or "err" in model_out:
             if impl_out.get("err") == model_out.get("err"):
                 return None
@@ -282,14 +943,14 @@ class P(Prop):
             sq = parse_rat(model_out["sq"])
             if sq != seg_d2((p[0], p[1]), (p[2], p[3]), (p[4], p[5])):
                 return "the harness' oracle and the Lean specification distSegSq differ on %s: %s" % (case["p"], sq)
-            if not close(impl_out["v"], math.sqrt(sq), 1e-9, 1e-9):
+            if not near(impl_out["v"], math.sqrt(sq), dist_slack(case["p"])):
                 return "impl=%r, exact model distance %r" % (impl_out["v"], math.sqrt(sq))
         if case["kind"] in ("dist", "area"):
             return None if close(impl_out["v"], model_out["v"], 1e-12) else "impl=%r model=%r" % (impl_out["v"], model_out["v"])
         if impl_out["input_size_after"] != model_out["input_size_after"]:
             return "the input track was modified: size %s" % impl_out["input_size_after"]
         if impl_out["kept"] == model_out["kept"]:
-            return None if close(impl_out["xy"], model_out["xy"]) else "positions differ: impl=%s model=%s" % (impl_out["xy"], model_out["xy"])
+            return None if same_rows(impl_out["xy"], model_out["xy"]) else "positions differ: impl=%s model=%s" % (impl_out["xy"], model_out["xy"])
         if case["kind"] == "dp" and impl_out["kept"] in model_out["all"]:
             # another choice among equally far fixes: a legitimate Douglas-Peucker run (the property leaves the tie free)
             return None
@@ -303,7 +964,7 @@ class P(Prop):
                 return "distance_to_segment%s raised %s" % (tuple(case["p"]), out["err"])
             p = [F(v) for v in case["p"]]
             want = math.sqrt(seg_d2((p[0], p[1]), (p[2], p[3]), (p[4], p[5])))
-            if not close(out["v"], want, 1e-9, 1e-9):
+            if not near(out["v"], want, dist_slack(case["p"])):
                 return "distance_to_segment%s = %r, the distance to the closed segment is %r" % (tuple(case["p"]), out["v"], want)
             if (p[0], p[1]) == (p[2], p[3]) and out["v"] != 0:
                 # hypothesis of dp_total_of_self_distance on the implementation's floats: needed for termination
@@ -314,14 +975,19 @@ class P(Prop):
                 return "triangle_area raised %s" % out["err"]
             p = [F(v) for v in case["p"]]
             want = abs((p[2] - p[0]) * (p[5] - p[1]) - (p[4] - p[0]) * (p[3] - p[1])) / 2
-            if not close(out["v"], float(want), 1e-9, 1e-9):
+            if not near(out["v"], float(want), area_slack(case["p"])):
                 return "triangle_area%s = %r, expected %r" % (tuple(case["p"]), out["v"], float(want))
             return None
-        name = "Douglas-Peucker" if k == "dp" else "Visvalingam"
+        if k == "mode":
+            return None                                      # the property is about what modes 1 and 2 return (kind trk, via simplify)
+        algo = case["algo"] if k == "trk" else k
+        name = "Douglas-Peucker" if algo == "dp" else "Visvalingam"
         xs, ys, tol = case["xs"], case["ys"], case["tol"]
         n = len(xs)
         if not tol > 0 or n < 2:
             return None                                      # outside the property's domain (tracks of >= 2 fixes, positive tolerances)
+        if not all(math.isfinite(fv(v)) and abs(fv(v)) <= 1e100 for v in xs + ys):
+            return None                                      # not an ENU track (metres): NaN / infinite / > 1e100 coordinates, see `rule`
         if "err" in out:
             return "%s raised %s (%s) on %s" % (name, out["err"], out.get("detail", ""), list(zip(xs, ys)))
         kept = out["kept"]
@@ -329,19 +995,48 @@ class P(Prop):
             return "%s returned an observation that is not an input observation (tags %s)" % (name, kept)
         if any(kept[j] >= kept[j + 1] for j in range(len(kept) - 1)):
             return "%s output is not a subsequence of the input in its original order: indices %s" % (name, kept)
-        for j, i in enumerate(kept):
-            if out["xy"][j] != [xs[i], ys[i]]:
-                return "%s moved observation %d from %s to %s" % (name, i, [xs[i], ys[i]], out["xy"][j])
+        if k == "trk":
+            zs = case.get("zs") or [0] * n
+            ts = case.get("ts") or list(range(n))
+            for j, i in enumerate(kept):
+                if not same_rows([out["xyz"][j]], [[xs[i], ys[i], zs[i]]]):
+                    return "%s moved observation %d from %s to %s" % (name, i, [xs[i], ys[i], zs[i]], out["xyz"][j])
+                if out["t"][j] != ts[i]:
+                    return "%s changed the timestamp of observation %d from %s to %s" % (name, i, ts[i], out["t"][j])
+        else:
+            for j, i in enumerate(kept):
+                if out["xy"][j] != [xs[i], ys[i]]:
+                    return "%s moved observation %d from %s to %s" % (name, i, [xs[i], ys[i]], out["xy"][j])
         if not kept or kept[0] != 0:
             return "%s dropped the first observation: kept %s" % (name, kept)
         if kept[-1] != n - 1:
             return "%s dropped the last observation: kept %s" % (name, kept)
-        if out.get("input_size_after") != n:
+        if k == "trk":
+            # "a subsequence of the input OBSERVATIONS": an observation is its position, its timestamp and its feature values
+            want = [[fv(v) for v in case["rows"][i]] if case["names"] else [] for i in kept]      # (orphan values included)
+            if not same_rows(out["rows"], want):
+                j = next(j for j in range(len(kept)) if not same_rows([out["rows"][j]], [want[j]]))
+                return "%s returned observation %d with feature values %s, the input observation has %s" % (
+                    name, kept[j], out["rows"][j], want[j])
+            if out["input_changed"]:
+                return "%s modified its input track: %s" % (name, out["input_changed"])
+        elif out.get("input_size_after") != n:
             return "%s modified its input track (size %s -> %s)" % (name, n, out.get("input_size_after"))
-        if k == "dp":
+        if algo == "dp" and case.get("coords", "ENU") == "ENU":
+            # (the tolerance clause is about the plane of an ENU track; Geo / ECEF positions get the clauses above and the model)
             V = [(F(xs[i]), F(ys[i])) for i in kept]
-            lim = (F(tol) * (1 + F(SLACK))) ** 2
+            scale = max([abs(float(v)) for v in xs + ys] + [1.0])
+            lim = (F(tol) * (1 + F(SLACK)) + F(ABS_SLACK) * F(scale)) ** 2
+            # sound shortcut for long tracks: a fix whose FLOAT distance is below tol by a margin (1e-6 relative, far above the rounding
+            # error of the formula as long as tol is not tiny w.r.t. the coordinates) is within tol exactly; the others get the exact test
+            quick = n > 12 and float(tol) > 1e-6 * scale
+            Vf = [(float(xs[i]), float(ys[i])) for i in kept]
+            limf = float(tol) * float(tol) * (1 - 1e-6)
             for i in range(n):
+                if quick:
+                    pf = (float(xs[i]), float(ys[i]))
+                    if len(Vf) > 1 and min(seg_d2_float(pf, Vf[k_], Vf[k_ + 1]) for k_ in range(len(Vf) - 1)) <= limf:
+                        continue
                 d2 = polyline_d2((F(xs[i]), F(ys[i])), V)
                 if d2 > lim:
                     return "Douglas-Peucker(tol=%r): input fix %d %s is at distance %.12g > tol from the simplified polyline (kept %s)" % (
@@ -350,50 +1045,139 @@ class P(Prop):
 
     # ---------------------------------------------------------------- known-finding classes
     def classify(self, case, impl_out, msg):
-        """'vw-area-reaches-argmin-sentinel': Visvalingam on a track three fixes of which span a triangle of area >= 1e300
-        (coordinates ~1e150): Operator.ARGMIN's sentinel `minimum = +1e300` is then never undercut, it answers index 0 and the
-        first fix is removed. Excluded by the hypothesis `hbig` of TV.C16.vw_sublist_ends; never produced by the generators."""
-        if case.get("kind") != "vw":
+        """'vw-area-reaches-argmin-sentinel': Visvalingam on a track three fixes of which span a triangle whose float area is infinite
+        or NaN (coordinates ~1e154 and more): Operator.ARGMIN's initial minimum `float('inf')` (1e300 before 68863c7) is then never
+        undercut, it answers index 0 and the first fix is removed (TV.C16.vw_sentinel_first_pass). Excluded by the hypothesis `hbig`
+        of TV.C16.vw_sublist_ends; such coordinates are outside the oracle's domain (> 1e100) and only produced by the `wild` stream
+        (correspondence).
+        'vw-user-feature-named-aire': the input track has a feature called '@aire' (the name of Visvalingam's temporary column):
+        it is overwritten in the working copy and deleted from the result (example in Props/C16.lean; outside `FreshTable`).
+        'vw-feature-values-without-dict-entry': the observations carry more feature values than the track's dict names (a track built
+        with Track(other.getObsList()) -- in particular every Douglas-Peucker result of a track with features): createAnalyticalFeature
+        takes column len(dico) for '@aire' but appends the slot at the end of the row, so the areas overwrite the first value and
+        removeAnalyticalFeature deletes it: the observations returned have lost their first feature value and gained a trailing 0.0
+        (example in Props/C16.lean; outside `FreshTable`). Generated only when listed."""
+        algo = case.get("algo") if case.get("kind") == "trk" else case.get("kind")
+        if algo != "vw":
             return None
-        pts = [(F(x), F(y)) for x, y in zip(case["xs"], case["ys"])]
+        if case.get("kind") == "trk" and "@aire" in case.get("names", []):
+            return FINDING_AIRE
+        if case.get("kind") == "trk" and case.get("orphan") and case.get("names") and "feature values" in (msg or ""):
+            return FINDING_ORPHAN
+        if not finite_case(case):
+            return "vw-area-reaches-argmin-sentinel"
+        if all(abs(fv(v)) <= 1e100 for v in case["xs"] + case["ys"]):
+            return None                                      # every area is below 1e201
+        pts = [(float(fv(x)), float(fv(y))) for x, y in zip(case["xs"], case["ys"])]
         for a, b, c in itertools.combinations(pts, 3):
-            if abs((b[0] - a[0]) * (c[1] - b[1]) - (c[0] - b[0]) * (b[1] - a[1])) / 2 >= F(1e300):
+            area = 0.5 * abs((b[0] - a[0]) * (c[1] - b[1]) - (c[0] - b[0]) * (b[1] - a[1]))
+            if not area < float("inf"):
                 return "vw-area-reaches-argmin-sentinel"
         return None
 
     # ---------------------------------------------------------------- shrinking / search
+    def drop_fix(self, case, i, j=None):
+        """the case without fixes i..j-1"""
+        j = i + 1 if j is None else j
+        c = dict(case, xs=case["xs"][:i] + case["xs"][j:], ys=case["ys"][:i] + case["ys"][j:])
+        if case["kind"] == "trk":
+            c["rows"] = [list(r) for r in case["rows"][:i] + case["rows"][j:]]
+            if c["rows"] and c["names"]:
+                for j, r in enumerate(c["rows"]):
+                    r[0] = j                                # the first feature stays the index
+            if case.get("zs"):
+                c["zs"] = case["zs"][:i] + case["zs"][j:]
+            if case.get("ts"):
+                c["ts"] = case["ts"][:i] + case["ts"][j:]
+        return c
+
     def shrink(self, case):
-        if case["kind"] not in ("dp", "vw"):
+        if case["kind"] not in ("dp", "vw", "trk"):
             return
         n = len(case["xs"])
         if case["via"] != "direct":
             yield dict(case, via="direct")
         if case.get("af"):
             yield dict(case, af=False)
+        if case["kind"] == "trk":
+            if case.get("pre"):
+                yield dict(case, pre=[])
+                for i in range(len(case["pre"])):
+                    yield dict(case, pre=case["pre"][:i] + case["pre"][i + 1:])
+            if case.get("src") == "csv":
+                yield dict(case, src="obj")
+            if case.get("coords", "ENU") != "ENU":
+                yield dict(case, coords="ENU")
+            if case.get("nodata") is not None and case.get("src") != "csv":
+                yield dict(case, nodata=None)
+            if case.get("zs") and not (case.get("src") == "csv" and any(z == case.get("nodata") for z in case["zs"])):
+                yield dict(case, zs=None)
+            if case.get("ts"):
+                yield dict(case, ts=None)
+            if case.get("orphan"):
+                yield dict(case, orphan=False)
+            if case.get("tol_form"):
+                yield dict(case, tol_form=None)
+            if len(case["names"]) > 1:
+                yield dict(case, names=case["names"][:1], rows=[r[:1] for r in case["rows"]])
+            if case["names"] and not case.get("ts"):
+                yield dict(case, names=[], rows=[[] for _ in case["rows"]])
+            if (case["uid"], case["tid"], case["base"]) != (0, 0, None):
+                yield dict(case, uid=0, tid=0, base=None)
+        size = n // 2
+        while size >= 2:                                    # long tracks: blocks first
+            for a in range(0, n, size):
+                yield self.drop_fix(case, a, min(n, a + size))
+            size //= 2
         for i in range(n):
             if n > 1:
-                yield dict(case, xs=case["xs"][:i] + case["xs"][i + 1:], ys=case["ys"][:i] + case["ys"][i + 1:])
+                yield self.drop_fix(case, i)
         for t in (1, 0.5, 2, 0.1, 10):
             if case["tol"] != t and not isinstance(case["tol"], int):
                 yield dict(case, tol=t)
-        mx, my = min(case["xs"]), min(case["ys"])
-        if (mx, my) != (0, 0) and all(isinstance(v, int) for v in case["xs"] + case["ys"]):
-            yield dict(case, xs=[x - mx for x in case["xs"]], ys=[y - my for y in case["ys"]])
+        if all(isinstance(v, int) for v in case["xs"] + case["ys"]) and n:
+            mx, my = min(case["xs"]), min(case["ys"])
+            if (mx, my) != (0, 0):
+                yield dict(case, xs=[x - mx for x in case["xs"]], ys=[y - my for y in case["ys"]])
+        elif n and not case.get("wild"):
+            r = dict(case, xs=[round(fv(x)) for x in case["xs"]], ys=[round(fv(y)) for y in case["ys"]])
+            if r != case:
+                yield r
 
     def mutate(self, case, rng):
-        if case["kind"] not in ("dp", "vw"):
+        if case["kind"] not in ("dp", "vw", "trk") or case.get("wild"):
             return
         n = len(case["xs"])
         for t in (case["tol"] * 0.5, case["tol"] * 2, case["tol"] * 0.999, case["tol"] * 1.001, 1, 0.5):
-            if t ** 2 == t * t:
+            if math.isfinite(t):
                 yield dict(case, tol=t)
+        if n == 0:
+            return
+        if case.get("nodata") is None and case.get("src") != "csv":
+            for sc in (1e-5, 1e-4, 1e-3):                    # the same track in small units, tolerance scaled with it
+                t = case["tol"] * sc
+                if math.isfinite(t) and t > 0:
+                    yield dict(case, xs=[fv(x) * sc for x in case["xs"]], ys=[fv(y) * sc for y in case["ys"]], tol=t)
+        if case["kind"] == "trk" and case.get("src") != "csv":
+            nd = case.get("nodata", -999999)
+            if nd is not None and case["via"] != "direct":
+                zs = list(case.get("zs") or [0] * n)          # a reader's placeholder as first / last fix
+                for i in (0, n - 1):
+                    xs, ys, z2 = list(case["xs"]), list(case["ys"]), list(zs)
+                    xs[i] = ys[i] = z2[i] = nd
+                    yield dict(case, xs=xs, ys=ys, zs=z2, nodata=nd)
         for _ in range(6):
             i = rng.randrange(n)
             xs, ys = list(case["xs"]), list(case["ys"])
-            xs[i] += rng.choice([-1, 1]); ys[i] += rng.choice([-1, 0, 1])
+            step = 1
+            ds = [abs(fv(a) - fv(b)) for a, b in zip(xs, xs[1:]) if a != b]
+            if ds and min(ds) < 1e-2:
+                step = min(ds)
+            xs[i] += rng.choice([-1, 1]) * step; ys[i] += rng.choice([-1, 0, 1]) * step
             yield dict(case, xs=xs, ys=ys)
-        if n >= 2:
+        if n >= 2 and case["kind"] != "trk":
             yield dict(case, xs=case["xs"] + [case["xs"][0]], ys=case["ys"] + [case["ys"][0]])
+        if n >= 2:
             yield dict(case, xs=case["xs"][:-1] + [case["xs"][0]], ys=case["ys"][:-1] + [case["ys"][0]])
 
 
